@@ -462,6 +462,9 @@ func runC06(c *mon.Ctx) {
 		fs := otlmini.FlagSet((i/nKinds + i%nKinds + rot) % int(otlmini.NumFlagSets))
 		alpha := otlmini.Small()
 		g := &otlmini.Gen{R: r, A: alpha}
+		if r.IntN(3) == 0 {
+			g.MaxSeq = 4 // longer rule inputs: room for a skipped glyph inside a three-component match
+		}
 		nTop := 1 + r.IntN(3)
 		depth := 1 + r.IntN(2)
 		list := g.GenList(kind, fs, nTop, depth, false)
@@ -497,7 +500,7 @@ func runC06(c *mon.Ctx) {
 			maxGid = 65535
 		}
 		alpha := otlmini.Random(r, n, maxGid)
-		g := &otlmini.Gen{R: r, A: alpha, WildFlags: true, MaxSeq: 2 + r.IntN(3), MaxNested: 1 + r.IntN(6)}
+		g := &otlmini.Gen{R: r, A: alpha, WildFlags: true, MaxSeq: 2 + r.IntN(4), MaxNested: 1 + r.IntN(6)}
 		kind := c06allKinds[r.IntN(nKinds)]
 		fs := otlmini.FlagSet(r.IntN(int(otlmini.NumFlagSets)))
 		list := g.GenList(kind, fs, 1+r.IntN(6), 1+r.IntN(3), false)
